@@ -863,12 +863,18 @@ func isHarnessBlock(b string) bool {
 func bubbleGoroutines() []string {
 	bl := allStacks()
 	var o []string
+	mine := "" // the caller's "synctest bubble N": goroutines stranded in the dead bubbles of earlier runs do not count
 	for i, b := range bl {
+		nl := strings.IndexByte(b, '\n')
 		if i == 0 {
+			if nl > 0 {
+				if k := strings.Index(b[:nl], "synctest bubble "); k >= 0 {
+					mine = strings.TrimRight(b[k:nl], "]:")
+				}
+			}
 			continue // the caller
 		}
-		nl := strings.IndexByte(b, '\n')
-		if nl < 0 || !strings.Contains(b[:nl], "synctest bubble") || isHarnessBlock(b) {
+		if nl < 0 || mine == "" || !strings.Contains(b[:nl], mine+"]") || isHarnessBlock(b) {
 			continue
 		}
 		o = append(o, b)
